@@ -128,7 +128,11 @@ def event_guard_accepts_subclasses(chk, rule: str) -> None:
     wrapped = [m for m in ff.cfg.nodes if m.expr() is not None and any(isinstance(c, _ast.Call) and _norm(c.func) == 'wrapped' for c in _ws(m.expr()))]
     raises = [m for m in ff.cfg.nodes if m.kind == 'raisestmt' and 'EventError' in _norm(m.ast.exc) and wrapped and any(w.id in ff.cfg.reachable([t_], include_src=True) for w in wrapped
               for t_ in [x for x in ff.cfg.nodes if x.kind == 'test' and m.id in ff.cfg.reachable([x])][:1])]
-    guards = [t for t in ff.cfg.nodes if t.kind == 'test' and 'from_states' in _norm(t.ast.test)]
+    # the tests that compare the CURRENT STATE with from_states (the wildcard test ``from_states != '*'`` alone is not one, wherever it is written)
+    def about_state(txt: str) -> bool:
+        rest = txt.replace("from_states != '*'", '').replace("from_states == '*'", '')
+        return 'from_states' in rest
+    guards = [t for t in ff.cfg.nodes if t.kind == 'test' and about_state(_norm(t.ast.test))]
     ok = bool(guards) and bool(wrapped)
     for t in guards:
         txt = _norm(t.ast.test)
@@ -363,7 +367,7 @@ def state_tables_built_per_class(chk, rule: str) -> None:
     from ..model import norm as _norm
     prog = chk.prog
     sm = prog.cls('base.state_machine.StateMachine')
-    eb = next((f for n, f in sm.vmethods.items() if n.endswith('ensure_built')), None)
+    eb = next((f for n, f in sm.emethods.items() if n.endswith('ensure_built')), None)
     if eb is None:
         chk.ob(rule, sm.qualname, False, 'the method that builds the state table of a class (..ensure_built) was not found', kind='tables-per-class')
         return
@@ -460,7 +464,7 @@ def no_shared_mutable_class_state(chk, rule: str, roots=('processes.Process',)) 
                 n_seen += 1
                 muts = []
                 for k in [c] + prog.subclasses(c):
-                    for f in k.vmethods.values():
+                    for f in k.emethods.values():
                         for n in _ast.walk(f.node):
                             if isinstance(n, _ast.Call) and isinstance(n.func, _ast.Attribute) and n.func.attr in MUTATORS and _norm(n.func.value) == f'self.{attr}':
                                 muts.append((f, n))
